@@ -343,6 +343,8 @@ class Normalizer:
                     env[k] = v1 if v1 == v2 else self.ite(c, v1, v2)
                 continue
             if isinstance(st, (ast.For, ast.While)):
+                if isinstance(st, ast.While):
+                    st = self._counting_while(st, env) or st
                 if self._unroll(st, env):
                     continue
                 self.loop(st, env)
@@ -445,6 +447,46 @@ class Normalizer:
 
     UNROLL_MAX = 8
 
+    def _counting_while(self, st, env):
+        """N25: `while k < n: body; k += 1` with k a local bound before the loop, not otherwise assigned in the body, no break /
+        continue and a bound the body does not re-bind, is `for k in range(<k before>, n): body` (the counter's value after the
+        loop is not modelled: it becomes an undefined marker)."""
+        t = st.test
+        if st.orelse or not (isinstance(t, ast.Compare) and len(t.ops) == 1 and st.body):
+            return None
+        l, op, r = t.left, t.ops[0], t.comparators[0]
+        if isinstance(op, ast.Gt):
+            l, r = r, l
+        elif not isinstance(op, ast.Lt):
+            return None
+        if not (isinstance(l, ast.Name) and l.id in env):
+            return None
+        k = l.id
+        last = st.body[-1]
+        inc = (isinstance(last, ast.AugAssign) and isinstance(last.op, ast.Add) and isinstance(last.target, ast.Name) and last.target.id == k
+               and isinstance(last.value, ast.Constant) and last.value.value == 1) or \
+              (isinstance(last, ast.Assign) and len(last.targets) == 1 and isinstance(last.targets[0], ast.Name) and last.targets[0].id == k
+               and isinstance(last.value, ast.BinOp) and isinstance(last.value.op, ast.Add) and isinstance(last.value.left, ast.Name)
+               and last.value.left.id == k and isinstance(last.value.right, ast.Constant) and last.value.right.value == 1)
+        if not inc:
+            return None
+        body = st.body[:-1]
+        stored = {n.id for s_ in body for n in ast.walk(s_) if isinstance(n, ast.Name) and isinstance(n.ctx, (ast.Store, ast.Del))}
+        bound_names = {n.id for n in ast.walk(r) if isinstance(n, ast.Name)}
+        if k in stored or (bound_names & stored) or any(isinstance(n, (ast.Break, ast.Continue, ast.Call)) and not isinstance(n, ast.Call) for s_ in body for n in ast.walk(s_)):
+            return None
+        if any(isinstance(n, ast.Call) for n in ast.walk(r)) and not all(isinstance(n.func, ast.Name) and n.func.id == 'len' for n in ast.walk(r) if isinstance(n, ast.Call)):
+            return None
+        init = env[k]
+        start_name = '$while_start_%d' % st.lineno
+        env[start_name] = init
+        new = ast.For(target=ast.Name(id=k, ctx=ast.Store()),
+                      iter=ast.Call(func=ast.Name(id='range', ctx=ast.Load()), args=[ast.Name(id=start_name, ctx=ast.Load()), r], keywords=[]),
+                      body=body or [ast.Pass()], orelse=[])
+        ast.copy_location(new, st)
+        ast.fix_missing_locations(new)
+        return new
+
     def _unroll(self, st, env):
         """N17: a `for` over range() with constant bounds and at most UNROLL_MAX iterations is its body repeated with the counter
         bound to each value (element-wise fills of a fixed-size block then normalise like the slice stores they spell out)."""
@@ -533,6 +575,14 @@ class Normalizer:
                 benv[v] = ('lv', d, k)
             if isinstance(st, ast.For):
                 benv[tv[0]] = ('iv', d)
+                h_ = header[1]
+                if h_[0] == 'call' and h_[1] == 'range' and len(h_[2]) == 2 and not h_[3]:
+                    # N26: loops count from zero - `for i in range(a, b)` is `for j in range(b - a)` with i = j + a
+                    a_, b_ = h_[2]
+                    trip = self.int_add(b_, -int(a_[1])) if (is_num(a_) and float(a_[1]).is_integer()) else ('bin', '-', b_, a_)
+                    header = ('for', ('call', 'range', (trip,), ()))
+                    self.loop_headers[d] = header
+                    benv[tv[0]] = self.binop('+', ('iv', d), a_)
             else:
                 header = ('while', self.expr(st.test, benv))
             r = self.block(st.body, benv)
@@ -550,6 +600,12 @@ class Normalizer:
                             and not self._mentions_loop(b_[2], d, carried_only=True):
                         lvl = self.lam_level
                         env[v] = ('lam', lvl, header[1][2][0], self._rename_iv(b_[2], d, ('bv', lvl)))
+                    # a list of n placeholders whose every element i is replaced in iteration i: the same comprehension
+                    elif isinstance(inits[v], tuple) and inits[v][0] == 'lam' and inits[v][2] == header[1][2][0] and isinstance(b_, tuple) \
+                            and b_[0] == 'store' and b_[1] == ('lv', d, k) and b_[2] == (('iv', d),) \
+                            and not self._mentions_loop(b_[3], d, carried_only=True):
+                        lvl = self.lam_level
+                        env[v] = ('lam', lvl, header[1][2][0], self._rename_iv(b_[3], d, ('bv', lvl)))
             if isinstance(st, ast.For):
                 # the loop variable keeps its last value; not used afterwards in the library (conservative marker)
                 env[tv[0]] = ('lastiv', raw)
@@ -635,7 +691,7 @@ class Normalizer:
                 and not isinstance(e.right, (ast.List, ast.Tuple)):
             # N18: a one-item list literal repeated n times is the array  j -> item  of length n
             item, n = self.expr(e.left.elts[0], env), self.expr(e.right, env)
-            if self.shape(item) == () and not is_num(n):
+            if not is_num(n) and not _has(item, ('bv',)):
                 return ('lam', self.lam_level, n, item)
         if isinstance(e, ast.BinOp):
             return self.binop(BINOPS[type(e.op)], self.expr(e.left, env), self.expr(e.right, env))
@@ -759,6 +815,19 @@ class Normalizer:
             return v
         return ('T', v)
 
+    def is_int_term(self, t):
+        if not isinstance(t, tuple) or not t:
+            return False
+        if t[0] == 'iv':
+            return True
+        if t[0] == 'num':
+            return float(t[1]).is_integer()
+        if t[0] == 'call' and t[1] in ('len', 'int'):
+            return True
+        if t[0] == 'bin' and t[1] in ('+', '-', '*'):
+            return self.is_int_term(t[2]) and self.is_int_term(t[3])
+        return False
+
     @staticmethod
     def _one_cell(t):
         return isinstance(t, tuple) and t and t[0] == 'block' and t[1] in ((1,), (1, 1)) and len(t[2]) == 1
@@ -766,6 +835,13 @@ class Normalizer:
     def binop(self, op, a, b):
         if op == '@':
             return self.dot(a, b)
+        # integer counters: (j + 1) - 1 is j (exact for the integer-valued terms loop counters are made of)
+        if op in ('+', '-') and is_num(b) and float(b[1]).is_integer() and isinstance(a, tuple) and a[0] == 'bin' and a[1] in ('+', '-') \
+                and is_num(a[3]) and float(a[3][1]).is_integer() and self.is_int_term(a[2]):
+            c = (a[3][1] if a[1] == '+' else -a[3][1]) + (b[1] if op == '+' else -b[1])
+            if c == 0:
+                return a[2]
+            return ('bin', '+' if c > 0 else '-', a[2], num(abs(c)))
         # N24: element-wise arithmetic of a scalar with a one-element array is that arithmetic on the element
         if op in ('+', '-', '*', '/') and self._one_cell(a) != self._one_cell(b):
             blk, other, left = (a, b, True) if self._one_cell(a) else (b, a, False)
@@ -943,9 +1019,33 @@ class Normalizer:
                 t = t[1][3][t[2]][0]
             else:
                 t = self.loop_inits.get((t[1], t[2]))
-        if isinstance(t, tuple) and t and t[0] == 'list':
+        if isinstance(t, tuple) and t and t[0] in ('list', 'lam', 'snoc'):
             return True
         return isinstance(t, tuple) and t and t[0] == 'bin' and t[1] == '*' and isinstance(t[2], tuple) and t[2][0] == 'list'
+
+    def _elem_shapes(self, t, depth=0):
+        """shapes of the values a list-building chain stores as elements (placeholders `[[None]] * n` are never read)"""
+        if not isinstance(t, tuple) or not t or depth > 12:
+            return {None}
+        if t[0] == 'store' and len(t[2]) == 1 and not (isinstance(t[2][0], tuple) and t[2][0][0] == 'sl'):
+            return {self.shape(t[3])} | self._elem_shapes(t[1], depth + 1)
+        if t[0] == 'snoc':
+            return {self.shape(t[2])} | self._elem_shapes(t[1], depth + 1)
+        if t[0] == 'lout':
+            init, body = t[1][3][t[2]]
+            return self._elem_shapes(init, depth + 1) | self._elem_shapes(body, depth + 1)
+        if t[0] == 'lv':
+            return set()                      # the loop's own earlier elements: covered by the init and the body of the loop
+        if t[0] == 'lam':
+            item = t[3]
+            if item == ('k', None) or item == ('list', (('k', None),)):
+                return set()
+            return {self.shape(item)}
+        if t[0] == 'bin' and t[1] == '*' and isinstance(t[2], tuple) and t[2][0] == 'list':
+            return set()
+        if t[0] == 'list':
+            return {self.shape(x) for x in t[1]}
+        return {None}
 
     NOT_NONE_HEADS = ('block', 'num', 'list', 'lam', 'tuple', 'bin', 'dot', 'T', 'neg', 'snoc')
 
@@ -1031,7 +1131,7 @@ class Normalizer:
     def store(self, cur, items, v):
         """functional update cur[items] = v; folds constant-region stores into fresh arrays into blocks."""
         if isinstance(cur, tuple) and cur[0] == 'lam' and len(items) == 1 and isinstance(items[0], tuple) and items[0][0] == 'iv' \
-                and self.loop_headers.get(items[0][1]) == ('for', ('call', 'range', (cur[2],), ())) and self.shape(v) == ():
+                and self.loop_headers.get(items[0][1]) == ('for', ('call', 'range', (cur[2],), ())):
             # N18: a[i] = v with i the variable of `for i in range(n)` and a of length n (always in range):  j -> v if j == i else a[j]
             return ('lam', cur[1], cur[2], self.ite(canon_cmp('==', ('bv', cur[1]), items[0]), v, cur[3]))
         blk = self.as_block(cur)
@@ -1196,6 +1296,8 @@ class Normalizer:
             if len(r) in (1, 2):
                 a, b = (num(0), r[0]) if len(r) == 1 else r
                 return ('call', 'range', (self.int_add(b, -1), self.int_add(a, -1), num(-1)), ())
+        if name == 'range' and len(args) == 2 and not kwargs and is_num(args[0], 0):
+            return ('call', 'range', (args[1],), ())        # range(0, n) is range(n)
         if name == 'float' and len(args) == 1 and is_num(args[0]):
             return args[0]
         if name == 'int' and len(args) == 1 and is_num(args[0]):
@@ -1277,6 +1379,10 @@ class Normalizer:
                 return ()
             return None
         if k == 'idx':
+            if len(t[2]) == 1 and not (isinstance(t[2][0], tuple) and t[2][0][0] == 'sl') and self._list_root(t[1]):
+                es = self._elem_shapes(t[1])
+                if len(es) == 1 and None not in es:
+                    return next(iter(es))               # every element ever stored in this list has that shape
             s = self.shape(t[1])
             if s is None:
                 return None
